@@ -1,6 +1,7 @@
 package main
 
 import (
+	"fmt"
 	"go/ast"
 	"go/token"
 	"go/types"
@@ -168,5 +169,78 @@ func ruleVERB1(c *Ctx) {
 		})
 	}
 	c.Floor("jsonwire.UnquoteMayCopy call sites", n, 12)
+	// the other way round: bytes a Decoder handed out (a raw token) reach encoder output unchecked only if the
+	// scanner accepts them as a simple string in full; every other raw string goes through ReformatString, which
+	// re-validates it under the *encoder's* options (the Decoder may have been more permissive)
+	if f := p.Func("jsontext.(Token).appendString"); f == nil || f.Body() == nil {
+		c.Undecide("jsontext.(Token).appendString", "function missing")
+	} else {
+		nRet := 0
+		p.InspectScope(f, func(g *FuncInfo, nd ast.Node) bool {
+			info := g.Info()
+			r, ok := nd.(*ast.ReturnStmt)
+			if !ok || len(r.Results) == 0 {
+				return true
+			}
+			call, ok := ast.Unparen(r.Results[0]).(*ast.CallExpr)
+			if !ok || !IsBuiltin(info, call, "append") || len(call.Args) != 2 || call.Ellipsis == token.NoPos {
+				return true
+			}
+			// the appended bytes come from previousBuffer()
+			src, _ := IdentObj(info, call.Args[1]).(*types.Var)
+			if src == nil {
+				return true
+			}
+			fromRaw := false
+			for _, d := range defsOf(info, g.Body(), src) {
+				if dc, ok := ast.Unparen(d).(*ast.CallExpr); ok {
+					if cf := Callee(info, dc); cf != nil && cf.Name() == "previousBuffer" {
+						fromRaw = true
+					}
+				}
+			}
+			if !fromRaw {
+				return true
+			}
+			nRet++
+			// innermost condition: every disjunct is ConsumeSimpleString(src) == len(src)
+			conds := enclosingConds(p, g, r)
+			okGuard := false
+			why := "the verbatim copy is not guarded at all"
+			if len(conds) > 0 && conds[0].then {
+				okGuard = true
+				var split func(e ast.Expr) []ast.Expr
+				split = func(e ast.Expr) []ast.Expr {
+					e = ast.Unparen(e)
+					if be, ok := e.(*ast.BinaryExpr); ok && be.Op == token.LOR {
+						return append(split(be.X), split(be.Y)...)
+					}
+					return []ast.Expr{e}
+				}
+				for _, d := range split(conds[0].cond) {
+					good := false
+					if be, ok := d.(*ast.BinaryExpr); ok && be.Op == token.EQL {
+						l, rr := ast.Unparen(be.X), ast.Unparen(be.Y)
+						if lc, ok := rr.(*ast.CallExpr); ok && FuncCall(info, lc, "jsonwire", "ConsumeSimpleString") {
+							l, rr = rr, l
+						}
+						if lc, ok := l.(*ast.CallExpr); ok && FuncCall(info, lc, "jsonwire", "ConsumeSimpleString") && len(lc.Args) == 1 && IdentObj(info, lc.Args[0]) == src {
+							if rc, ok := rr.(*ast.CallExpr); ok && IsBuiltin(info, rc, "len") && len(rc.Args) == 1 && IdentObj(info, rc.Args[0]) == src {
+								good = true
+							}
+						}
+					}
+					if !good {
+						okGuard = false
+						why = "the verbatim copy also happens under `" + exprString(d) + "`, which does not prove the bytes are a simple (escape-free, valid UTF-8) string"
+					}
+				}
+			}
+			c.Oblige(fmt.Sprintf("raw-token-verbatim-only-if-simple#%d", nRet), r.Pos(), okGuard, why)
+			return true
+		})
+		if nRet == 0 {
+			c.Undecide("jsontext.(Token).appendString/verbatim", "no verbatim copy of a raw token found")
+		}
+	}
 }
-
